@@ -57,7 +57,6 @@ func (Op Hit) Op_instruction_verilog_default_state(arch *Arch, flavor string) st
 func (op Hit) Op_instruction_verilog_state_machine(conf *Config, arch *Arch, rg *bmreqs.ReqRoot, flavor string) string {
 	rom_word := arch.Max_word()
 	opbits := arch.Opcodes_bits()
-	bar_num := arch.Shared_num("barrier")
 
 	reg_num := 1 << arch.R
 
@@ -71,13 +70,6 @@ func (op Hit) Op_instruction_verilog_state_machine(conf *Config, arch *Arch, rg 
 
 	for i := 0; i < reg_num; i++ {
 		result += "						" + strings.ToUpper(Get_register_name(i)) + " : begin\n"
-
-		for j := 0; j < bar_num; j++ {
-			result += "						" + strings.ToUpper(Get_register_name(j)) + " : begin\n"
-
-			result += "							$display(\"CLR " + strings.ToUpper(Get_register_name(j)) + "\");\n"
-			result += "						end\n"
-		}
 
 		result += "							$display(\"CLR " + strings.ToUpper(Get_register_name(i)) + "\");\n"
 		result += "						end\n"
